@@ -239,6 +239,22 @@ func (g *Gen) Bootstrap(e *eng.Engine, refresh func()) {
 			}})
 		}
 	}
+	// a batch whose whole supply sits in a basket: every account balance of it is zero, nothing retired
+	if len(g.V.ProjectList) > 0 && len(cIDs) > 0 {
+		p := g.V.ProjectList[0]
+		if c := g.V.Classes[p.ClassKey]; c != nil && c.CreditTypeAbbrev == "C" {
+			if iss := sortedKeys(g.V.Issuers[c.Key]); len(iss) > 0 {
+				s, en := time.Date(2022, 2, 2, 0, 0, 0, 0, time.UTC), time.Date(2022, 12, 2, 0, 0, 0, 0, time.UTC)
+				r := e.Exec(eng.Tx{Msgs: []sdk.Msg{&basetypes.MsgCreateBatch{Issuer: iss[0], ProjectId: p.Id, Issuance: []*basetypes.BatchIssuance{{Recipient: A[2], TradableAmount: "40"}}, Metadata: "all in basket", StartDate: &s, EndDate: &en}}, Tag: "bootstrap/batch-all-in-basket"})
+				refresh()
+				if r != nil && r.OK {
+					d := r.Resps[0].(*basetypes.MsgCreateBatchResponse).BatchDenom
+					ex("put-all", &baskettypes.MsgPut{Owner: A[2], BasketDenom: "eco.uC.NCT", Credits: []*baskettypes.BasketCredit{{BatchDenom: d, Amount: "15"}}})
+					ex("put-all", &baskettypes.MsgPut{Owner: A[2], BasketDenom: "eco.uC.NCT", Credits: []*baskettypes.BasketCredit{{BatchDenom: d, Amount: "25"}}})
+				}
+			}
+		}
+	}
 	// data
 	h := &data.ContentHash{Graph: &data.ContentHash_Graph{Hash: make([]byte, 32), DigestAlgorithm: 1, CanonicalizationAlgorithm: 1}}
 	ex("anchor", &data.MsgAnchor{Sender: A[0], ContentHash: h})
@@ -290,6 +306,18 @@ func (g *Gen) BootstrapWhale(e *eng.Engine, refresh func()) {
 	for _, d := range denoms {
 		if bk != "" {
 			ex("put", &baskettypes.MsgPut{Owner: A[0], BasketDenom: bk, Credits: []*baskettypes.BasketCredit{{BatchDenom: d, Amount: big1}}})
+		}
+	}
+	// a third batch of 10^29 credits stays tradable (the random workload draws wide-sum puts from it);
+	// one deterministic put whose entries sum to a value of 35 significant digits (10^28 + 0.000001)
+	{
+		s := time.Date(2017, 3, 1, 0, 0, 0, 0, time.UTC)
+		en := time.Date(2018, 3, 1, 0, 0, 0, 0, time.UTC)
+		r := ex("batch", &basetypes.MsgCreateBatch{Issuer: iss[0], ProjectId: p.Id, Metadata: "whale-wide", StartDate: &s, EndDate: &en, Open: false,
+			Issuance: []*basetypes.BatchIssuance{{Recipient: A[0], TradableAmount: "100000000000000000000000000000"}}})
+		if r != nil && r.OK && bk != "" {
+			d := r.Resps[0].(*basetypes.MsgCreateBatchResponse).BatchDenom
+			ex("put-wide", &baskettypes.MsgPut{Owner: A[0], BasketDenom: bk, Credits: []*baskettypes.BasketCredit{{BatchDenom: d, Amount: "10000000000000000000000000000"}, {BatchDenom: d, Amount: "0.000001"}}})
 		}
 	}
 	if bk != "" {
